@@ -14,7 +14,7 @@ RULE = ("one evaluation = one history: up to 6 requests of random kinds (ping, l
         "out-of-order/duplicate/unknown delivery; distinct by (kinds, deliveries) hash")
 ASSUMPTIONS = ["reply shapes are the documented result shapes of vf/catalogue.py with id/from matched to the request",
                "only kinds for which the stack defines a reply entity are issued"]
-REQUIRED = ["internal:group-keyfetch", "internal_group_ok", "group_keyfetch_partial", "histories", "callbacks_that_raised", "reissued_in_callback", "requests", "deliveries", "predicted_callbacks", "observed_callbacks", "delivery:result", "delivery:error", "delivery:duplicate",
+REQUIRED = ["concurrent_request_runs", "concurrent_requests_ok", "concurrent_yields", "internal:group-keyfetch", "internal_group_ok", "group_keyfetch_partial", "histories", "callbacks_that_raised", "reissued_in_callback", "requests", "deliveries", "predicted_callbacks", "observed_callbacks", "delivery:result", "delivery:error", "delivery:duplicate",
             "delivery:unknown-id", "delivery:non-reply", "delivery:foreign", "internal:key-fetch", "internal:key-upload"]
 TIMEOUT = {"quick": 600, "thorough": 7200}
 
@@ -439,6 +439,118 @@ def internal_group_keyfetch(acc, seed, tag):
     acc.count("internal_group_ok")
 
 
+def concurrent_requests(acc, seed, tag):
+    """Requests issued by several threads at once (application threads; the keep-alive thread does the same) while a receive thread
+    delivers the replies as fast as the requests appear on the wire, with thread switches injected inside the registry code:
+    every request's callback fires exactly once with its own request."""
+    import random
+    import threading
+    import time
+    from vf import inject
+    from yowsup.layers.protocol_iq.protocolentities import PingIqProtocolEntity
+    from yowsup.layers.protocol_presence.protocolentities import LastseenIqProtocolEntity
+    r = gen.rng(seed, ID, tag)
+    kit = stackkit.Kit(dict.fromkeys(stackkit.FLAGS, True), False, top=make_app())
+    app = kit.top
+    nthreads, per = r.choice([2, 3, 4]), r.choice([15, 30])
+    fired = {}
+    lock = threading.Lock()
+    issued = {}
+    stop = threading.Event()
+    w = {"tag": tag, "kind": "concurrent", "threads": nthreads, "per_thread": per}
+
+    def cb(kind):
+        def f(reply, request):
+            with lock:
+                fired.setdefault(request.getId(), []).append((kind, reply.getId() if hasattr(reply, "getId") else None))
+        return f
+
+    def sender(k, rr):
+        for i in range(per):
+            ent = PingIqProtocolEntity() if rr.random() < 0.7 else LastseenIqProtocolEntity("%s@s.whatsapp.net" % gen.phone(rr))
+            with lock:
+                issued[ent.getId()] = ent
+            try:
+                app._sendIq(ent, cb("success"), cb("error"))
+            except Exception as e:  # noqa
+                with lock:
+                    fired.setdefault(ent.getId(), []).append(("raised", type(e).__name__))
+
+    ka_ids = []
+    iq_layer = kit.sublayer("YowIqProtocolLayer")
+
+    def keepalive(rr):
+        """What YowPingThread does: it enters at the iq layer itself, not through the application layer."""
+        for i in range(per):
+            ent = PingIqProtocolEntity()
+            ka_ids.append(ent.getId())
+            try:
+                iq_layer.sendIq(ent)
+            except Exception as e:  # noqa
+                with lock:
+                    fired.setdefault(ent.getId(), []).append(("raised", type(e).__name__))
+            if rr.random() < 0.3:
+                time.sleep(0.0002)
+
+    def receiver(rr):
+        done = 0
+        while not stop.is_set() or done < len(kit.bottom.sent):
+            sent = kit.bottom.sent
+            while done < len(sent):
+                n = sent[done]
+                done += 1
+                if getattr(n, "tag", None) != "iq":
+                    continue
+                typ = "result" if rr.random() < 0.8 else "error"
+                kids = [("error", {"code": "404", "text": "item-not-found"}, [], None)] if typ == "error" else ([("query", {"seconds": "5"}, [], None)] if n["xmlns"] == "jabber:iq:last" else [])
+                try:
+                    kit.inject(("iq", {"id": n["id"], "type": typ, "from": n["to"] or S}, kids, None))
+                except Exception as e:  # noqa
+                    with lock:
+                        fired.setdefault(n["id"], []).append(("receive-raised", type(e).__name__))
+            time.sleep(0.0002)
+    yi = inject.YieldInjector(random.Random(r.randrange(1 << 30)), ("yowsup/layers/__init__.py", "yowsup/layers/protocol_iq/layer.py", "yowsup/layers/interface/interface.py",
+                                                                       "yowsup/layers/protocol_presence/layer.py"), p=r.choice([0.05, 0.2, 0.5]))
+    ths = [threading.Thread(target=sender, args=(k, random.Random(r.randrange(1 << 30))), name="verif-req-%d" % k) for k in range(nthreads)]
+    ths.append(threading.Thread(target=keepalive, args=(random.Random(r.randrange(1 << 30)),), name="verif-keepalive-like"))
+    rt = threading.Thread(target=receiver, args=(random.Random(r.randrange(1 << 30)),), name="verif-replies")
+    acc.count("concurrent_request_runs")
+    with yi:
+        rt.start()
+        for t in ths:
+            t.start()
+        for t in ths:
+            t.join(60)
+        stop.set()
+        rt.join(30)
+    if any(t.is_alive() for t in ths) or rt.is_alive():
+        acc.inconc("%s: concurrent request threads still running" % tag)
+        return
+    acc.count("concurrent_requests", len(issued))
+    acc.count("concurrent_yields", yi.yields)
+    acc.case(["conc", tag], nontrivial=yi.yields > 0)
+    wrong = {i: fired.get(i, []) for i in issued if len([x for x in fired.get(i, []) if x[0] in ("success", "error")]) != 1 or any(x[0] in ("raised", "receive-raised") for x in fired.get(i, []))}
+    if wrong:
+        i0 = sorted(wrong)[0]
+        n_cb = len([x for x in wrong[i0] if x[0] in ("success", "error")])
+        acc.violation("concurrent:callback-count:%d" % min(n_cb, 2), "%d of %d requests issued by %d threads at once did not get exactly one callback (e.g. id %s: %s)"
+                      % (len(wrong), len(issued), nthreads, i0, wrong[i0][:3]), w)
+        return
+    # the keep-alive-like pings have no application callback: each one's reply comes up as exactly one entity
+    ups = {}
+    for e_ in getattr(app, "upward", []):
+        try:
+            ups[e_.getId()] = ups.get(e_.getId(), 0) + 1
+        except Exception:
+            pass
+    wrong_ka = [i for i in ka_ids if ups.get(i, 0) != 1]
+    if wrong_ka:
+        acc.violation("concurrent:keepalive-reply:%d" % min(ups.get(wrong_ka[0], 0), 2), "%d of %d pings sent the way the keep-alive thread sends them (while application threads were issuing requests) "
+                      "did not have their reply delivered exactly once (e.g. id %s: %d times)" % (len(wrong_ka), len(ka_ids), wrong_ka[0], ups.get(wrong_ka[0], 0)), w)
+        return
+    acc.count("concurrent_requests_ok", len(issued) + len(ka_ids))
+
+
 def shards(tier, seed, nworkers):
     q = tier == "quick"
     nsh = 6 if q else nworkers
@@ -459,6 +571,8 @@ def run(spec, acc):
         internal_requests(acc, spec["seed"], "int/%d/%d" % (spec["shard"], i))
         if i % 2 == 0:
             internal_group_keyfetch(acc, spec["seed"], "intg/%d/%d" % (spec["shard"], i))
+        if i % 8 == 0:
+            concurrent_requests(acc, spec["seed"], "conc/%d/%d" % (spec["shard"], i))
 
 
 def replay(spec, acc):
